@@ -1,8 +1,10 @@
 #!/bin/bash
-# confirm_batch.sh <ids...> : copies /tmp/seed2/out/<id>/{A,B} to /verif/seeded/<id>-{A,B} and confirms each in /tmp/seed2/tmpl
-for id in "$@"; do for x in A B; do
-  src=/tmp/seed2/out/$id/$x; dst=/verif/seeded/$id-$x
+# confirm_batch.sh <ids...> : copies $SEED_ROOT/out/<id>/{letters} to /verif/seeded/<id>-<letter> and confirms each in $SEED_ROOT/tmpl
+# SEED_ROOT defaults to /tmp/seed2, SEED_LETTERS to "A B" (round 3: SEED_ROOT=/tmp/seed3 SEED_LETTERS="C D E")
+ROOT=${SEED_ROOT:-/tmp/seed2}; LETTERS=${SEED_LETTERS:-A B}
+for id in "$@"; do for x in $LETTERS; do
+  src=$ROOT/out/$id/$x; dst=/verif/seeded/$id-$x
   [ -f $src/patch.diff ] || { echo "$id-$x: no patch"; continue; }
   rm -rf $dst; mkdir -p $dst; cp $src/patch.diff $dst/; cp -r $src/demo $dst/demo; rm -rf $dst/demo/target; cp $src/notes.md $dst/ 2>/dev/null
-  echo "$id-$x: $(/verif/tools/confirm_seed.sh /tmp/seed2/tmpl $dst 2>&1 | tail -1)"
+  echo "$id-$x: $(/verif/tools/confirm_seed.sh $ROOT/tmpl $dst 2>&1 | tail -1)"
 done; done
